@@ -107,9 +107,10 @@ class Impl:
             for _, p in r["ptrs"]:
                 if re.fullmatch(r"[A-Za-z_]\w*", p):
                     syms.setdefault(p, r["kind"])
-        out = ["#include <stddef.h>\n#include <stdlib.h>\nconst char *verif_last_called; int verif_calls;\n"]
+        out = ["#include <stddef.h>\n#include <stdlib.h>\nconst char *verif_last_called; int verif_calls; const void *verif_last_a0, *verif_last_a1;\n"]
         for s, kind in sorted(syms.items()):
-            out.append("int %s(%s) { verif_last_called = \"%s\"; verif_calls++; return 0; }\n" % (s, SIG[kind], s))
+            rec = " verif_last_a0 = logMessage; verif_last_a1 = arg;" if kind == "output" else ""
+            out.append("int %s(%s) { verif_last_called = \"%s\"; verif_calls++;%s return 0; }\n" % (s, SIG[kind], s, rec))
         for s in sorted(extra):
             if s not in syms:
                 out.append("void %s(void) { abort(); }\n" % s)
@@ -137,8 +138,10 @@ class Impl:
             raise CheckError("the registries do not compile with every switch on: " + err)
         g = os.path.join(self.dir, "genericregistry.o")
         sh(["gcc"] + self.flags + ["-c", os.path.join(run.tree, "src", "genericregistry.c"), "-o", g])
+        dr = os.path.join(self.dir, "impl_registry.o")
+        sh(["gcc"] + self.flags + ["-I" + os.path.join(VERIF, "harness"), "-c", os.path.join(VERIF, "harness", "impl_registry.c"), "-o", dr])
         und, dfn = set(), set()
-        for o in objs + [g]:
+        for o in objs + [g, dr]:
             for line in sh(["nm", o]).stdout.split("\n"):
                 f = line.split()
                 if len(f) == 2 and f[0] == "U":
@@ -150,8 +153,6 @@ class Impl:
         open(st, "w").write(self.stubs_source(extra))
         so = os.path.join(self.dir, "stubs.o")
         sh(["gcc"] + self.flags + ["-c", st, "-o", so])
-        dr = os.path.join(self.dir, "impl_registry.o")
-        sh(["gcc"] + self.flags + ["-I" + os.path.join(VERIF, "harness"), "-c", os.path.join(VERIF, "harness", "impl_registry.c"), "-o", dr])
         self.common = [g, so, dr]
 
     def arrays(self, d):
@@ -231,6 +232,8 @@ def config_cases(js, defined, prb):
     for k in KEYS:
         for n in prb:
             out.append("byname\t%s\t%s\t%s" % (k, hexs(n.encode()), g))
+    for n in prb:
+        out.append("dispatch\tout\t%s\t%s" % (hexs(n.encode()), g))      # snoopy_outputregistry_dispatch with CFG->output = n
     for k in KEYS:
         nrows = len(js["registries"][k]["names"])
         out.append("count\t%s\t%s" % (k, g))
@@ -325,7 +328,7 @@ def spec_lines(lines, answers):
     idx, out = [], []
     for i, (l, a) in enumerate(zip(lines, answers)):
         f = l.split("\t")
-        if f[0] == "byname" and a.startswith("ok\t"):
+        if f[0] in ("byname", "dispatch") and a.startswith("ok\t"):
             o = a.split("\t")[1]
             if o.startswith("fault"):
                 o = "fault"
@@ -353,6 +356,19 @@ def classify_case(js, line, model, ans):
     k = f[1]
     kind = KIND_OF[k]
     a = ans.split("\t")
+    if f[0] == "dispatch":
+        name = bytes.fromhex(f[2]).decode() if f[2] != "-" else ""
+        if not ans.startswith("ok"):
+            return "fault:" + a[0].split(":")[0], "snoopy_outputregistry_dispatch with the configured output '%s' ended in %s" % (name, ans)
+        o = a[1]
+        if o.startswith("called:"):
+            sym = o[7:]
+            if sym != impl_of(kind, name):
+                return "spec:dispatch-misbinding", "snoopy_outputregistry_dispatch with the configured output '%s' runs %s, which is not the implementation of '%s' (an unknown or switched-off name must run nothing)" % (name, sym, name)
+            return "spec:dispatch-off-feature-callable", "snoopy_outputregistry_dispatch runs output '%s' although its enable switch is off" % name
+        if o == "unknown":
+            return "spec:dispatch-enabled-unknown", "output '%s' is enabled but snoopy_outputregistry_dispatch does not reach it" % name
+        return "fault:lookup", "snoopy_outputregistry_dispatch('%s') misbehaved: %s" % (name, o)
     if f[0] != "byname":
         what = "callById(%s)" % f[2] if f[0] == "byid" else f[0]
         if not ans.startswith("ok"):
@@ -380,6 +396,10 @@ def diagnose(js):
     why = []
     if not js["lookup_ok"]:
         why.append("lookup functions not of the modelled shape")
+    if not js.get("entries_ok", True):
+        why.append("an entry point of the registries is not one of the modelled ones")
+    if not js.get("dispatch_ok", True):
+        why.append("snoopy_outputregistry_dispatch does not simply call callByName(CFG->output, ...)")
     for k in KEYS:
         r = js["registries"][k]
         kind = r["kind"]
@@ -587,7 +607,7 @@ def check(run):
             f = l.split("\t")
             if a == "nobuild":
                 continue
-            if f[0] in ("byname", "byid") and "\tcalled:" in a:
+            if f[0] in ("byname", "byid", "dispatch") and "\tcalled:" in a:
                 n_called.add((label, f[1], f[0], f[2]))
             faulted = not a.startswith("ok") or "\tfault" in a
             if faulted or i in spec_bad.get(ci, []):
@@ -672,7 +692,7 @@ def check(run):
         "evaluations": n_eval, "distinct_nontrivial": len(n_called),
         "rule": "per build configuration (a config.h with exactly the chosen guard macros defined): gcc -E arrays of the three registry files, and the registries "
                 "+ genericregistry.c linked against identity stubs, asked getCount, callById/getName for every id in [-2, rows+2) and INT_MIN/INT_MAX, "
-                "callByName/doesNameExist/getIdFromName for every name of every table plus near misses; configurations = all-on, all-off, as-configured, "
+                "callByName/doesNameExist/getIdFromName for every name of every table plus near misses, snoopy_outputregistry_dispatch with CFG->output set to each of these names; configurations = all-on, all-off, as-configured, "
                 "every single switch off, single switch on, seeded random subsets (densities 0.15/0.5/0.85/0.97); plus snoopy_genericregistry_* on generated arrays "
                 "with duplicates/prefixes/early sentinels; non-trivial = distinct (configuration, registry, lookup) whose answer actually called an implementation",
         "samples": [per_cfg[i][2][j][:200] for i, j in ((0, 4), (1, 60), (min(5, len(per_cfg) - 1), 80), (len(per_cfg) - 1, 100)) if j < len(per_cfg[i][2])] + gen_lines[:1],
@@ -740,7 +760,7 @@ def replay(run, path):
             verdict = "ok"
             if a == "nobuild" or err:
                 verdict = "DOES-NOT-BUILD: " + (err or "")[-400:].replace("\n", " ")
-            elif f[0] in ("byname", "byid") and a.startswith("ok"):
+            elif f[0] in ("byname", "byid", "dispatch") and a.startswith("ok"):
                 si, sl = spec_lines([l], [a])
                 s = run_model(run, model, sl)[0] if sl else "ok"
                 verdict = "ok" if (s == "ok" and a == m) else ("SPEC-VIOLATION" if s != "ok" else "DIFFERS")
